@@ -294,19 +294,57 @@ func BuildImportBatch(is *schema.ImportSet, opt int, chk *tc.Checker, index int,
 	mst := driver.Settings(opt)
 	mst.PackageName = b.PkgName()
 	mst.ImportGenerationMode = bebop.ImportGenerationModeSeparate
-	src, ph, err := gen(mainText, filepath.Join(dir, "main.bop"), mst)
-	if err != nil {
-		return dropAll("import-"+ph, "rejected", err.Error())
-	}
-	res := chk.Check("gen.go", src)
-	if !res.OK() {
-		cat, msg := "syntax", ""
-		if res.ParseErr != nil {
-			msg = res.ParseErr.Error()
-		} else {
-			cat, msg = tc.Category(res.Errs[0]), tc.ErrLine(res.Errs[0])
+	// build generates and type-checks the importing file with the given cases only
+	build := func(cases []*schema.Case) (src []byte, phase, cat, msg string) {
+		sub := *is
+		sub.Cases = cases
+		_, text := sub.Render(depPath, "dep.bop")
+		src, ph, err := gen(text, filepath.Join(dir, "main.bop"), mst)
+		if err != nil {
+			return nil, "import-" + ph, "rejected", err.Error()
 		}
-		return dropAll("import-typecheck", cat, msg)
+		res := chk.Check("gen.go", src)
+		if !res.OK() {
+			cat, msg := "syntax", ""
+			if res.ParseErr != nil {
+				msg = res.ParseErr.Error()
+			} else {
+				cat, msg = tc.Category(res.Errs[0]), tc.ErrLine(res.Errs[0])
+			}
+			return nil, "import-typecheck", cat, msg
+		}
+		return src, "", "", ""
+	}
+	_ = mainText
+	src, ph, cat, msg := build(is.Cases)
+	var droppedCases []Dropped
+	if src == nil {
+		// some case does not generate or compile: find those cases by halving, keep the rest
+		var good []*schema.Case
+		var rec func(cs []*schema.Case)
+		rec = func(cs []*schema.Case) {
+			if len(cs) == 0 {
+				return
+			}
+			if s, p, c, m := build(cs); s != nil {
+				good = append(good, cs...)
+			} else if len(cs) == 1 {
+				droppedCases = append(droppedCases, Dropped{CaseID: cs[0].ID, Class: cs[0].Class, Opt: opt, Phase: p, Category: c, Msg: m})
+			} else {
+				rec(cs[:len(cs)/2])
+				rec(cs[len(cs)/2:])
+			}
+		}
+		rec(is.Cases)
+		if len(good) == 0 {
+			return dropAll(ph, cat, msg)
+		}
+		sub := *is
+		sub.Cases = good
+		is = &sub
+		if src, ph, cat, msg = build(good); src == nil {
+			return dropAll(ph, cat, msg)
+		}
 	}
 	names, err := recordNames(src)
 	if err != nil {
@@ -325,7 +363,7 @@ func BuildImportBatch(is *schema.ImportSet, opt int, chk *tc.Checker, index int,
 		b.Names[c.ID] = n
 	}
 	b.Cases, b.Src, b.DepSrc = is.Cases, src, depSrc
-	return b, nil
+	return b, droppedCases
 }
 
 func renderCase(c *schema.Case) string {
